@@ -7,7 +7,7 @@ FIXES = {
  "f232e06": ["C01", "C10"], "bc273a4": ["C01", "C14"], "e5df4cf": ["C01", "C10", "C11"], "bebab22": ["C02", "C04", "C11"],
  "f4a2f74": ["C04", "C07"], "e70a0e4": ["C03", "C07", "C14"], "bea309f": ["C04", "C07"], "148a58a": ["C11"],
  "29aa6a1": ["C12", "C14"], "a3c4476": ["C18"], "e7ede67": ["C19"], "f66f9b5": ["C13", "C14", "C15"], "ce0d7dd": ["C20", "C13"],
- "40f6f38": ["C16"], "1aeba1b": ["C15"], "4185208": ["C14"], "3098c07": ["C15"],
+ "40f6f38": ["C16"], "1aeba1b": ["C15"], "4185208": ["C14"], "3098c07": ["C15"], "67a0665": ["C14"], "3696335": ["C15"], "f03f3cf": ["C14"],
 }
 def sh(c, cwd="/repo"):
     p = subprocess.run(c, cwd=cwd, shell=True, stdout=subprocess.PIPE, stderr=subprocess.STDOUT, text=True)
